@@ -373,3 +373,60 @@ def run(rep: Report, prog: Program, tier: str) -> None:
                 rep.fail(mk_finding(prog, PROP, "C14-VALID", val_f, loops[0],
                                     f"{label}: the description is {'accepted' if rejected is False else 'rejected with ' + str(rejected)}; it must be "
                                     f"{'rejected with ValueError before any state changes' if want_reject else 'accepted'}", construct=f"validation of {kind} sections: {what}"))
+
+    # ---------------- C14-ABSORB: `closed` is absorbing at the setter, whatever call resumes later
+    rep.rule("C14-ABSORB", "__setSignalingState never leaves `closed`", min_instances=5)
+    setter = prog.func(PC + ".__setSignalingState")
+    for target in ("stable", "have-local-offer", "have-remote-offer", "closed", "have-local-pranswer"):
+        emitted = []
+
+        def hk_(call, ev, emitted=emitted):
+            if unparse(call.func) == "self.emit":
+                emitted.append(ev.ev(call.args[0]))
+                return None
+            return NotImplemented
+        me = SimpleNamespace(**{"__signalingState": "closed"})
+        ev6 = Evaluator(prog, setter.module, setter.cls, {"self": me, "state": target}, hk_)
+        try:
+            ev6.exec_block(setter.node.body)
+        except Ret:
+            pass
+        except (Raised, Unknown) as ex:
+            raise AnalysisError(f"C14-ABSORB cannot evaluate __setSignalingState: {ex}")
+        if getattr(me, "__signalingState") == "closed" and (not emitted or target == "closed"):
+            rep.ok("C14-ABSORB", f"closed -> {target}", sample="state stays closed" + ("" if emitted else ", no event"))
+        else:
+            rep.fail(mk_finding(prog, PROP, "C14-ABSORB", setter, setter.node, f"__setSignalingState({target!r}) on a closed connection sets the state to "
+                                f"{getattr(me, '__signalingState')!r} / emits {emitted}: a negotiation call that was suspended when close() ran resurrects the connection",
+                                construct="closed not absorbing"))
+
+    # ---------------- C14-EARLY: setLocalDescription publishes the new state before it suspends
+    rep.rule("C14-EARLY", "setLocalDescription updates signalingState before its first suspension point after validation", min_instances=1)
+    sl_f = prog.func(PC + ".setLocalDescription")
+
+    def ev_early(node, f):
+        if isinstance(node, ast.Call):
+            nm = unparse(node.func)
+            if nm == "self.__validate_description":
+                return ["validated", "-suspended"]
+            if nm == "self.__setSignalingState":
+                return ["state-set"]
+        if isinstance(node, ast.Await):
+            return ["suspended"]
+        return []
+    sites_e = []
+
+    def ob_early(node, st, f):
+        if isinstance(node, ast.Call) and unparse(node.func) == "self.__setSignalingState":
+            sites_e.append((node, "validated" in st.events, "suspended" in st.events))
+    # `suspended` is a may-fact here: use a separate pass that records whether an await lies textually between validation and the setter calls
+    val_calls = [n for n in walk_no_nested(sl_f.node) if isinstance(n, ast.Call) and unparse(n.func) == "self.__validate_description"]
+    set_calls = [n for n in walk_no_nested(sl_f.node) if isinstance(n, ast.Call) and unparse(n.func) == "self.__setSignalingState"]
+    if len(val_calls) != 1 or not set_calls:
+        raise AnalysisError("setLocalDescription: validation / state update not found")
+    awaits_between = [n for n in walk_no_nested(sl_f.node) if isinstance(n, ast.Await) and val_calls[0].lineno < n.lineno < min(c.lineno for c in set_calls)]
+    if not awaits_between:
+        rep.ok("C14-EARLY", "setLocalDescription: no await between __validate_description and __setSignalingState", sample=f"{len(set_calls)} state update(s)")
+    else:
+        rep.fail(mk_finding(prog, PROP, "C14-EARLY", sl_f, awaits_between[0], "setLocalDescription suspends between validating the description and publishing the new signalling state: a call made "
+                            "in that window (a remote offer, close()) is validated against the stale state", construct="await before state update"))
